@@ -206,6 +206,7 @@ REVERTS = [
     ("F12", "fix: interpolating an ordered map no longer drops", ["C04"]),
     ("F13", "fix: ordered.Unmarshal keeps field warnings", ["C13"]),
     ("F15", "fix: a group step that contains an unknown step", ["C15", "C08"]),
+    ("F16", "fix: a matrix without dimensions signs", ["C02"]),
 ]
 
 
